@@ -26,11 +26,17 @@
 //!   item (element, aggregate, size, pending tag, extra fields), read before anything else touches the item.
 //!   Output: one token per op, ` | `, the raw shape of every live treap read through the public fields
 //!   left/right/priority/item, ` | `, collect() of every live treap.
-//! `x <family> <n>`           implementation-level search for C16 (native priorities): sorted appends,
-//!   front inserts, split-and-swap rotations; checks heap order, size and height <= 5*log2(n+1)+20 at every
-//!   power of two and at n.
+//!     Z:k          burn: k times `drop(TreapNode::new(item))` - k draws of the priority generator, no treap (token `z`)
+//!     Ft:v:p[:ms]  It:i:k:v:p[:ms]   the same as F / I, but the node is created on ANOTHER thread: from_item runs on a
+//!                    spawned thread and the treap is moved back; for It the treap is moved to a spawned thread, insert_at
+//!                    runs there, the treap is moved back (the threads are joined at once: the draws stay in line order)
+//!     Fn:v:p[:ms]  In:i:k:v:p[:ms]   the same as F / I through the building blocks: `Box::new(TreapNode::new(item))` put into
+//!                    the `root` field resp. TreapNode::split_at + TreapNode::new + TreapNode::merge + TreapNode::merge on `t.root`
+//! `x <family> <n> [a] [b] [c]`   implementation-level search for C16 (native priorities), see fam.rs
 use rlib_treap::*;
 use vh::p;
+
+mod fam;
 
 #[derive(Clone, Copy)]
 enum Md {
@@ -38,7 +44,7 @@ enum Md {
     Set(i64),
 }
 
-trait HItem: TreapItem + TreapItemSized + Sized + Default + 'static {
+trait HItem: TreapItem + TreapItemSized + Sized + Default + Send + 'static {
     fn mk(v: i64) -> Self;
     fn modify(&mut self, m: Md);
     fn elem(&self) -> i64;
@@ -299,6 +305,14 @@ fn empty_agrees<I: HItem>(t: &Treap<I>, seen_empty: bool, tok: String) -> String
     }
 }
 
+/// run `f` on a freshly spawned thread and hand its result back (joined at once)
+fn on_thread<X: Send + 'static, F: FnOnce() -> X + Send + 'static>(f: F) -> X {
+    match std::thread::Builder::new().stack_size(256 << 20).spawn(f).unwrap().join() {
+        Ok(x) => x,
+        Err(e) => std::panic::resume_unwind(e),
+    }
+}
+
 fn node_of<I: HItem>(item: I, pr: &str) -> Treap<I> {
     let mut t = Treap::from_item(item);
     if pr != "n" {
@@ -356,6 +370,52 @@ fn history<I: HItem>(toks: &[&str]) -> String {
             "F" => {
                 ts.push(node_of(made::<I>(p(f[1]), &parse_mods(f.get(3))), f[2]));
                 "u".into()
+            }
+            "Z" => {
+                for _ in 0..idx(1) {
+                    drop(TreapNode::new(I::mk(0)));
+                }
+                "z".into()
+            }
+            "Ft" => {
+                let it = made::<I>(p(f[1]), &parse_mods(f.get(3)));
+                let pr = f[2].to_string();
+                ts.push(on_thread(move || node_of(it, &pr)));
+                "u".into()
+            }
+            "Fn" => {
+                let mut nd = Box::new(TreapNode::new(made::<I>(p(f[1]), &parse_mods(f.get(3)))));
+                if f[2] != "n" {
+                    nd.priority = p::<u32>(f[2]);
+                }
+                ts.push(wrap(Some(nd)));
+                "u".into()
+            }
+            "It" | "In" => {
+                let i = idx(1);
+                if i >= ts.len() {
+                    "x".into()
+                } else {
+                    let it = made::<I>(p(f[3]), &parse_mods(f.get(5)));
+                    let pos: usize = p(f[2]);
+                    let pr = f[4].to_string();
+                    let mut t = std::mem::replace(&mut ts[i], Treap::new());
+                    if f[0] == "It" {
+                        t = on_thread(move || {
+                            insert_item_with_priority(&mut t, pos, it, &pr);
+                            t
+                        });
+                    } else {
+                        let (l, r) = TreapNode::split_at(t.root.take(), pos);
+                        let mut nd = Box::new(TreapNode::new(it));
+                        if pr != "n" {
+                            nd.priority = p::<u32>(&pr);
+                        }
+                        t.root = TreapNode::merge(TreapNode::merge(l, Some(nd)), r);
+                    }
+                    ts[i] = t;
+                    "u".into()
+                }
             }
             "M" | "Mn" => match take2(&mut ts, idx(1), idx(2)) {
                 Some((a, b)) => {
@@ -541,87 +601,6 @@ fn insert_item_with_priority<I: HItem>(t: &mut Treap<I>, pos: usize, item: I, pr
     *t = Treap::merge(Treap::merge(l, node_of(item, pr)), r);
 }
 
-fn height<I>(n: &Option<Box<TreapNode<I>>>) -> usize {
-    match n {
-        None => 0,
-        Some(b) => 1 + height(&b.left).max(height(&b.right)),
-    }
-}
-
-/// heap order along every edge + subtree size; returns None on a violated edge
-fn heap_ok<I: HItem>(n: &Option<Box<TreapNode<I>>>) -> Option<usize> {
-    match n {
-        None => Some(0),
-        Some(b) => {
-            for ch in [&b.left, &b.right] {
-                if let Some(c) = ch {
-                    if c.priority < b.priority {
-                        return None;
-                    }
-                }
-            }
-            let l = heap_ok(&b.left)?;
-            let r = heap_ok(&b.right)?;
-            if b.item.size() != l + r + 1 {
-                return None;
-            }
-            Some(l + r + 1)
-        }
-    }
-}
-
-fn log2_floor(n: usize) -> usize {
-    (usize::BITS - 1 - n.leading_zeros()) as usize
-}
-
-fn family(fam: &str, n: usize) -> String {
-    let mut t: Treap<ItemSized> = Treap::new();
-    let mut worst = 0usize; // max over checkpoints of height*1000/(bound)
-    let mut checks = 0;
-    for i in 0..n {
-        match fam {
-            "append" => t.insert_at(i, ItemSized::mk(i as i64)),
-            "front" => t.insert_at(0, ItemSized::mk(i as i64)),
-            "rotate" => {
-                // insert at a scattered place, then a split-and-swap rotation (the suite's tp == 3); same formulas as C16/Model.v
-                let pos = (i * 7919) % (i + 1);
-                t.insert_at(pos, ItemSized::mk(i as i64));
-                let cut = (i * 104729 + 12345) % (i + 2);
-                let whole = std::mem::replace(&mut t, Treap::new());
-                let (l, r) = whole.split_at(cut);
-                t = Treap::merge(r, l);
-            }
-            "appendremove" => {
-                // sorted appends with every third element removed again from the front
-                t.insert_at(t.size(), ItemSized::mk(i as i64));
-                if i % 3 == 2 {
-                    t.remove_at(0);
-                }
-            }
-            _ => {
-                eprintln!("harness: unknown family {}", fam);
-                std::process::exit(3)
-            }
-        }
-        let m = i + 1;
-        if m.is_power_of_two() || m == n {
-            let cnt = t.size();
-            let h = height(&t.root);
-            let bound = 5 * log2_floor(cnt + 1) + 20;
-            checks += 1;
-            match heap_ok(&t.root) {
-                Some(s) if s == cnt => {}
-                _ => return format!("bad heap {} {} {}", fam, m, h),
-            }
-            if h > bound {
-                return format!("bad height {} {} {} {}", fam, m, h, bound);
-            }
-            worst = worst.max(h * 1000 / bound);
-        }
-    }
-    format!("ok {} {} {} {} {}", fam, n, height(&t.root), worst, checks)
-}
-
 fn main() {
     vh::serve(|t| {
         let owned: Vec<String> = t.iter().map(|s| s.to_string()).collect();
@@ -643,7 +622,7 @@ fn main() {
                             std::process::exit(3)
                         }
                     },
-                    "x" => family(toks[1], p(toks[2])),
+                    "x" => fam::run(&toks[1..]),
                     _ => {
                         eprintln!("harness: unknown line kind");
                         std::process::exit(3)
